@@ -26,6 +26,7 @@
 #include <fcntl.h>
 #include <sys/stat.h>
 #include "src/interpret.h"
+#include "lib/efuns/call_out.h"
 
 extern long verif_fault_countdown;
 extern unsigned long verif_instruction_count;
@@ -255,14 +256,26 @@ static unsigned long evaluate_k (object_t * ob, const char *fn, long k, const ch
           eval_cost = CONFIG_INT (__MAX_EVAL_COST__);
           verif_instruction_count = 0;
           verif_fault_countdown = k;
-          ret = apply (shared, ob, 0, ORIGIN_DRIVER);
-          verif_fault_countdown = 0;
-          count = verif_instruction_count;
-          if (ret)
-            vh_sv (val, sizeof val, ret);
+          if (!strcmp (fn, "<call_out>"))
+            {
+              /* the backend's timer tick: the real call_out() of lib/efuns/call_out.c with its own recovery point */
+              current_time += 2;
+              call_out ();
+              verif_fault_countdown = 0;
+              count = verif_instruction_count;
+              snprintf (res, sizeof res, "done co");
+            }
           else
-            snprintf (val, sizeof val, "!nofn");
-          snprintf (res, sizeof res, "done %s", val);
+            {
+              ret = apply (shared, ob, 0, ORIGIN_DRIVER);
+              verif_fault_countdown = 0;
+              count = verif_instruction_count;
+              if (ret)
+                vh_sv (val, sizeof val, ret);
+              else
+                snprintf (val, sizeof val, "!nofn");
+              snprintf (res, sizeof res, "done %s", val);
+            }
           pop_context (&econ);
         }
       else
@@ -420,6 +433,15 @@ static int c05_cmd (char *line)
       evaluate_k (ob, tok[2], 0, 0, 0, out, sizeof out);
       vh_out ("run %s", out);
       return 1;
+    }
+  if (!strcmp (tok[0], "injectco") && n == 1)
+    {
+      /* same as `inject t <call_out>`: prep() of object t schedules the callbacks */
+      static char *co[3] = { "inject", "t", "<call_out>" };
+      tok[0] = co[0];
+      tok[1] = co[1];
+      tok[2] = co[2];
+      n = 3;
     }
   if (!strcmp (tok[0], "inject") && (n == 3 || n == 5))
     {
